@@ -81,6 +81,7 @@ class Engine(object):
         self.known = known or {}
         self.max_seconds = max_seconds
         self.nl_mode = 'exact'
+        self.sampler = None
         self.quick_ms = 1500
         self.branch_ms = 3000
         self.results = []       # obligation records
@@ -359,7 +360,8 @@ class Engine(object):
             yield x
             return
         if self.mode != 'symbolic':
-            raise Unsupported('each_value in %s mode' % self.mode)
+            yield int(x)
+            return
         t = z3.simplify(zint(x))
         if z3.is_int_value(t):
             yield t.as_long()
@@ -412,7 +414,10 @@ class Engine(object):
         """Symbolic integer input in [lo, hi]."""
         name = self._name(name)
         if self.mode != 'symbolic':
-            v = int(self.inputs[name])
+            if self.sampler is not None:
+                v = self.sampler.draw_int(name, lo, hi)
+            else:
+                v = int(self.inputs[name])
             if (lo is not None and v < lo) or (hi is not None and v > hi):
                 raise PathEnd('input outside precondition')
             self.input_vars[name] = v
@@ -429,7 +434,10 @@ class Engine(object):
     def bool(self, name):
         name = self._name(name)
         if self.mode != 'symbolic':
-            v = bool(self.inputs[name])
+            if self.sampler is not None:
+                v = bool(self.sampler.draw_int(name, 0, 1))
+            else:
+                v = bool(self.inputs[name])
             self.input_vars[name] = v
             return v
         t = z3.Bool(name)
